@@ -110,8 +110,8 @@ class Cache:
                 res.derived_from = set()
 
         elif isinstance(node, verbs.Select):
-            selected_uuids = set(col._uuid for col in node.select)
-            res.uuid_to_name = {uid: name for uid, name in self.uuid_to_name.items() if uid in selected_uuids}
+            # keep the order given in `select`, this is the order of the exported columns
+            res.uuid_to_name = {col._uuid: self.uuid_to_name[col._uuid] for col in node.select}
             res.name_to_uuid = {name: uid for uid, name in res.uuid_to_name.items()}
 
         elif isinstance(node, verbs.Rename):
@@ -126,7 +126,11 @@ class Cache:
                 uid: Col(name, node, uid, val.dtype(), val.ftype(agg_is_window=True))
                 for name, val, uid in zip(node.names, node.values, node.uuids, strict=True)
             }
-            res.name_to_uuid = self.name_to_uuid | {name: uid for name, uid in zip(node.names, node.uuids, strict=True)}
+            # an overwritten column moves to the end, like in the exported table
+            overwritten = set(node.names)
+            res.name_to_uuid = {name: uid for name, uid in self.name_to_uuid.items() if name not in overwritten} | {
+                name: uid for name, uid in zip(node.names, node.uuids, strict=True)
+            }
             res.uuid_to_name = {uid: name for name, uid in res.name_to_uuid.items()}
 
         elif isinstance(node, verbs.Filter):
